@@ -3,7 +3,7 @@ C02 (verdict), C16 (no layer after a bad outcome under --stop-on-error)."""
 import os
 
 HERE = os.path.dirname(os.path.abspath(__file__))
-TEST_GHOST = {'bad': 'int', 'ntd': 'bool', 'stdout': 'Stream', 'stderr': 'Stream', 'tsu': 'bool', 'hookexc': 'bool',
+TEST_GHOST = {'bad': 'int', 'ntd': 'bool', 'attempted': 'Set[Layer]', 'ran': 'int', 'stdout': 'Stream', 'stderr': 'Stream', 'tsu': 'bool', 'hookexc': 'bool',
               'cap_out': 'Opt[Str]', 'cap_err': 'Opt[Str]'}
 STREAMS_SAME = "G.stdout == old(G.stdout) and G.stderr == old(G.stderr)"
 
@@ -40,9 +40,9 @@ RESUME_TESTS = {            # assumed here; body under contract in the C06 check
     'returns': 'int',
     'ghost': TEST_GHOST,
     'requires': ["len(layers) >= 1"],
-    'modifies': ['failures', 'errors', 'skipped', 'G.bad'],
+    'modifies': ['failures', 'errors', 'skipped', 'G.bad', 'G.ran'],
     'ensures': ["G.bad - old(G.bad) == (len(failures) - old(len(failures))) + (len(errors) - old(len(errors)))",
-                "result >= 0", "len(failures) >= old(len(failures))", "len(errors) >= old(len(errors))"],
+                "G.ran == old(G.ran) + result", "result >= 0", "len(failures) >= old(len(failures))", "len(errors) >= old(len(errors))"],
     'raises': {'OtherBase': []},
 }
 
@@ -53,13 +53,19 @@ RUNNER_RUN_TESTS = {
     'ghost': TEST_GHOST,
     'locals': {'setup_layers': 'Dict[Layer,int]'},
     'requires': ["WF()", "not G.ntd", "not G.tsu", "not G.hookexc"],
-    'modifies': ['self.ran', 'self.failures', 'self.errors', 'self.skipped', 'self.failed', 'G.bad', 'G.ntd',
+    'modifies': ['G.attempted', 'G.ran', 'self.ran', 'self.failures', 'self.errors', 'self.skipped', 'self.failed', 'G.bad', 'G.ntd',
                  'G.stdout', 'G.stderr', 'G.tsu', 'G.hookexc', 'G.cap_out', 'G.cap_err'],
     'ensures': [
         "forall(l, Layer, l not in setup_layers)",                                       # C01: every set-up layer was torn down
         "self.failed == (len(self.import_errors) + len(self.failures) + len(self.errors) > 0)",   # C02: verdict
         "implies(not self.options.post_mortem, " + SBAD + ")",                            # C02: one entry per bad outcome
         STREAMS_SAME,                                                                     # C13/C18
+        # C12: Runner.ran grows by exactly what the in-process layers and the subprocesses report
+        "implies(not self.options.post_mortem, self.ran - old(self.ran) == G.ran - old(G.ran))",
+        # C03/C04: unless the run is stopped on purpose (--stop-on-error, post-mortem EndRun, hand-over to subprocesses)
+        # every selected layer has been run
+        "implies(not self.options.stop_on_error and not self.options.post_mortem and not should_resume,"
+        " len(layers_to_run) == 0)",
     ],
     # C04: apart from KeyboardInterrupt & co. and MemoryError only an exception of a per-test layer hook escapes
     'raises': {'OtherBase': [STREAMS_SAME], 'KeyboardInterrupt': [STREAMS_SAME], 'MemoryError': [STREAMS_SAME],
@@ -75,6 +81,7 @@ RUNNER_RUN_TESTS = {
     'loops': {
         '#loop1': [
             "closed(setup_layers)", "object not in setup_layers",
+            "forall(l, Layer, implies(l in G.attempted, l not in setup_layers))",
             "not G.ntd or len(layers_to_run) == 0",
             "implies(bool(self.options.resume_layer), len(layers_to_run) <= 1)",
             "forall(i, Int, implies(0 <= i and i < len(layers_to_run), layers_to_run[i][1] != object))",
@@ -82,6 +89,7 @@ RUNNER_RUN_TESTS = {
             "len(self.failures) >= old(len(self.failures))", "len(self.errors) >= old(len(self.errors))",
             "implies(self.options.stop_on_error, len(self.failures) == pre(len(self.failures), '#loop1')"
             " and len(self.errors) == pre(len(self.errors), '#loop1'))",
+            "self.ran - old(self.ran) == G.ran - old(G.ran)",
             "not should_resume", "not G.tsu", "not G.hookexc", STREAMS_SAME,
         ],
         '#loop2': [],
